@@ -2,6 +2,7 @@
 """Ingest and evaluate changes written by independent sub-agents.
 
   seeded.py ingest <name> <outdir> <PROP>      copy patch.diff/demo.py/README.txt into /verif/seeded/<name>/
+  seeded.py table                               regenerate the table in DESIGN.md from the meta.json files
   seeded.py run [name ...] [--checks C01,C05]  apply each patch to a scratch worktree of /repo HEAD, confirm
         (a) the 30 baseline tests still pass, (b) the demo fails with the change and passes without it,
         then run the property's quick check (and any --checks) with VERIF_REPO=<scratch>; writes meta.json.
@@ -102,6 +103,43 @@ def main():
         for n in names:
             run_one(n, extra)
         return
+    if a and a[0] == "table":
+        return table()
     print(__doc__)
+
+
+def table():
+    """Regenerate the table between the <!-- seeded-table --> markers of DESIGN.md from the meta.json files."""
+    import re
+    rows = ["| seeded change (sub-agent) | property | caught by (quick tier: monitor / clause) |", "|---|---|---|"]
+    n = caught = hist = 0
+    for d in sorted(glob.glob(os.path.join(SEEDED, "*"))):
+        mp = os.path.join(d, "meta.json")
+        if not os.path.exists(mp):
+            continue
+        m = json.load(open(mp))
+        n += 1
+        cell = []
+        for c, r in sorted(m.get("checks", {}).items()):
+            if r.get("caught"):
+                mm = re.search(r"monitor=(\S+) clause=(.*?) interp=", r.get("first_report", ""))
+                cell.append("%s: %s / %s" % (c, mm.group(1), mm.group(2)) if mm else "%s: caught" % c)
+            else:
+                cell.append("%s: **not caught** (exit %s)" % (c, r.get("exit")))
+        if any(r.get("caught") for r in m.get("checks", {}).values()):
+            caught += 1
+        text = "; ".join(cell) or "(not evaluated)"
+        if m.get("history"):
+            hist += 1
+            text += " — " + m["history"].replace("|", "/").replace("\n", " ")
+        rows.append("| `%s` | %s | %s |" % (m["name"], m["property"], text))
+    dp = os.path.join(VERIF, "DESIGN.md")
+    s = open(dp).read()
+    parts = s.split("<!-- seeded-table -->")
+    assert len(parts) == 3, len(parts)
+    s = parts[0] + "<!-- seeded-table -->\n" + "\n".join(rows) + "\n<!-- seeded-table -->" + parts[2]
+    open(dp, "w").write(s)
+    print("%d seeded changes, %d caught on the current tree, %d with a history note" % (n, caught, hist))
+
 
 main()
